@@ -1,6 +1,7 @@
 package main
 
 import (
+	"os"
 	"fmt"
 	"go/token"
 	"regexp"
@@ -272,7 +273,7 @@ func (st *State) script(goal string) string {
 	}
 	// axioms are included only when one of their ghost / global symbols occurs elsewhere in the query
 	var keep map[int]bool
-	if goal != "false" {
+	if goal != "false" && os.Getenv("GOVC_NOSLICE") == "" {
 		keep = st.sliceAssumes(goal)
 	}
 	var rest strings.Builder
@@ -467,6 +468,7 @@ func (st *State) load(p *Val, t types.Type) *Val {
 			s := sortOf(t)
 			h := st.heapGet(p.A.Key, heapSortFor(p.A.Key, s))
 			v := &Val{T: t, S: s, Tm: sel(h, p.A.Base)}
+			st.entryClosed(v, h, p.A.Key)
 			if _, isSig := t.Underlying().(*types.Signature); isSig {
 				v.Fn = &FnVal{Key: "field:" + strings.TrimPrefix(p.A.Key, "F:"), Self: &Val{S: SInt, Tm: p.A.Base}}
 			}
@@ -478,7 +480,9 @@ func (st *State) load(p *Val, t types.Type) *Val {
 			}
 			key := "E:" + s
 			h := st.heapGet(key, heapSortFor(key, s))
-			return &Val{T: t, S: s, Tm: sel(sel(h, p.A.Base), p.A.Idx)}
+			ev := &Val{T: t, S: s, Tm: sel(sel(h, p.A.Base), p.A.Idx)}
+			st.entryClosed(ev, h, key)
+			return ev
 		case "bytes":
 			h := st.heapGet("C:Bytes", heapSortFor("C:Bytes", SBytes))
 			return &Val{T: t, S: SInt, Tm: "(bytes_at " + sel(h, p.A.Base) + " " + p.A.Idx + ")"}
@@ -522,7 +526,41 @@ func (st *State) load(p *Val, t types.Type) *Val {
 	key := "C:" + s
 	h := st.heapGet(key, heapSortFor(key, s))
 	v := &Val{T: t, S: s, Tm: sel(h, p.Tm)}
+	st.entryClosed(v, h, key)
 	return v
+}
+
+// entryClosed: a reference read from the heap as it was at function entry (array term still the initial constant)
+// names an object that existed at entry, so it lies at or below the entry frontier: objects allocated by this
+// activation are distinct from it.
+func (st *State) entryClosed(v *Val, h, key string) {
+	if st.entryFrontier == "" || v.T == nil || h != sym(st.initialHeapName(key, 0)) {
+		return
+	}
+	var r string
+	switch v.T.Underlying().(type) {
+	case *types.Pointer, *types.Map, *types.Chan:
+		if v.S != SInt {
+			return
+		}
+		r = v.Tm
+	case *types.Slice:
+		if v.S != SSlice {
+			return
+		}
+		r = "(s_base " + v.Tm + ")"
+	default:
+		return
+	}
+	f := "(and (<= " + r + " " + st.entryFrontier + ") (<= (obj_root " + r + ") " + st.entryFrontier + "))"
+	if st.closedSeen == nil {
+		st.closedSeen = map[string]bool{}
+	}
+	if st.closedSeen[f] {
+		return
+	}
+	st.closedSeen[f] = true
+	st.assume(f)
 }
 
 func (st *State) storeTo(p *Val, v *Val, t types.Type) {
@@ -585,6 +623,29 @@ func (st *State) newRef(hint string) string {
 	}
 	st.assume("(> " + r + " " + st.frontier + ")")
 	st.assume(eq("(obj_root "+r+")", r))
+	// a new object is referenced from nowhere: no location of a heap array written on this path holds it
+	// (arrays still at their entry value are covered by entryClosed at load time)
+	var hk []string
+	for k := range st.heap {
+		hk = append(hk, k)
+	}
+	sortStrings(hk)
+	for _, k := range hk {
+		t := st.heap[k]
+		if t == sym(st.initialHeapName(k, 0)) {
+			continue
+		}
+		switch st.eng.heapSort(k) {
+		case "(Array Int Int)":
+			if strings.HasPrefix(k, "F:") || strings.HasPrefix(k, "C:") {
+				st.assume("(forall ((fx Int)) (! (not (= (select " + t + " fx) " + r + ")) :pattern ((select " + t + " fx))))")
+			}
+		case "(Array Int (Array Int Int))":
+			if k == "E:Int" {
+				st.assume("(forall ((fb Int) (fx Int)) (! (not (= (select (select " + t + " fb) fx) " + r + ")) :pattern ((select (select " + t + " fb) fx))))")
+			}
+		}
+	}
 	st.frontier = r
 	st.freshRefs = append(st.freshRefs, r)
 	st.known = append(st.known, r)
@@ -701,6 +762,13 @@ func (vf *VerifyFunc) enterBlock(st *State, fr *Frame, b *ssa.BasicBlock) bool {
 	if !isHeader {
 		return true
 	}
+	// loop-carried variables are also visible under "<name><loop ordinal>" (rangeindex0, rangeindex1, ...) so that
+	// the invariant of an inner loop can name the position of an outer one
+	for i, phi := range phis {
+		if phi.Comment != "" {
+			fr.vars[fmt.Sprintf("%s%d", phi.Comment, ord)] = phiVals[i]
+		}
+	}
 	top := len(st.frames) == 1
 	var invs []*Clause
 	if top && vf.fc != nil {
@@ -729,6 +797,7 @@ func (vf *VerifyFunc) enterBlock(st *State, fr *Frame, b *ssa.BasicBlock) bool {
 		fr.regs[phi] = nv
 		if phi.Comment != "" {
 			fr.vars[phi.Comment] = nv
+			fr.vars[fmt.Sprintf("%s%d", phi.Comment, ord)] = nv
 		}
 	}
 	hk := vf.havocLoop(st, fr, fi.loopBody[b])
